@@ -13,6 +13,7 @@ What is proved here, over the statement-by-statement models of `Format` (Model.l
     `fmt_idempotent_full_fails`) — and are proved here on an explicit decidable fragment
     (`fmt_preserves_tokens_partial`, `fmt_idempotent_partial`).
 -/
+import CaddyModel.Gen.FmtCmd
 import CaddyModel.C17.Lemmas
 import CaddyModel.C17.LexLemmas
 import CaddyModel.C17.Witness
@@ -236,5 +237,16 @@ theorem cmdFmt_second_run_changes_nothing_partial (x : List Rune) (h : inW x = t
   have := fmt_idempotent_partial x h
   unfold idempotentAt at this
   exact eq_of_beq this
+
+
+/-- **source fact** (regenerated from the tree under test on every run, `Gen/FmtCmd.lean`): in
+    `cmdFmt` the bytes read from stdin / the file (`v0`) reach `caddyfile.Format` without being
+    assigned again, and its result (`v1`, or the call in place) goes to `os.WriteFile` /
+    `fmt.Print` unchanged — the static twin of the `cf` op -/
+theorem cmdFmt_data_flow_matches_source :
+    Gen.cmdFmtDataFlow =
+      ["v0,err = io.ReadAll(os.Stdin)", "fmt.Print(string(caddyfile.Format(v0)))",
+       "v0,err = os.ReadFile(configFile)", "v1 = caddyfile.Format(v0)",
+       "os.WriteFile(configFile,v1,0o600)", "fmt.Print(string(v1))"] := by decide
 
 end CaddyModel.C17
